@@ -256,6 +256,35 @@ def parts(tier):
                         rule="point subsets and windows on the ulp-neighbour grid (a point one ulp outside the window is outside)",
                         bounds={}))
 
+    # far-from-zero grid (times ~1.1e12 s): a relative tolerance is a real duration there
+    bgrid = D.BIG
+    bsets = D.interval_sets(bgrid, 2)
+
+    def gen_big():
+        for s in bsets:
+            for labs in ("abc", "aaa"):
+                e = D.labelled(s, labs)
+                for a in bgrid:
+                    for b in bgrid:
+                        yield (e, bgrid[0], bgrid[-1], a, b)
+
+    ps.append(InputPart(
+        "crop-intervals-far-from-zero", gen_big, lambda c: _check_iv(c, True),
+        rule="interval sets (<=2, distinct and equal labels) and windows on the dyadic grid 2**40 + {0, 2**-7, 0.25, 0.5, 1, 2, 3, 4}: exact "
+             "model, bit for bit (7.8 ms and 0.25 s are real durations although they are below 1e-14 resp. 1e-9 of the time values)",
+        bounds={"oracle": "bit-exact"}, snippet=_snippet_iv))
+
+    def gen_pt_big():
+        for s in D.point_sets(bgrid, 2 if quick else 3):
+            for labs in ("xyz", "xxx"):
+                p = D.labelled_points(s, labs)
+                for a in bgrid:
+                    for b in bgrid:
+                        yield (p, bgrid[0], bgrid[-1], a, b)
+
+    ps.append(InputPart("crop-points-far-from-zero", gen_pt_big, lambda c: _check_pt(c, True),
+                        rule="point subsets (<=%d) and windows on the far-from-zero grid, bit-exact" % (2 if quick else 3), bounds={}))
+
     # Textgrid.crop: 3 tiers
     tgrid = D.unit_grid(5)
     tsets = D.interval_sets(tgrid, 2)
